@@ -166,7 +166,7 @@ int main(int argc, char** argv) {
 	if (!args.get("as").empty()) args.prop = args.get("as");   // the dataset scenarios also serve C08 (thread assignment of init_dataset calls)
 	const bool th = args.thorough();
 	const int bound = atoi(args.get("bound", th ? "3" : "2").c_str());
-	const long cap = atol(args.get("cap", th ? "20000" : "500").c_str());    // schedules per scenario (reported if hit)
+	const long cap = atol(args.get("cap", th ? "3000" : "500").c_str());    // schedules per scenario (reported if hit)
 	std::vector<Scenario> SC = scenarios(th);
 	if (args.get("only-dataset") == "1") { std::vector<Scenario> d; for (auto& x : SC) if (x.name.rfind("D[", 0) == 0) d.push_back(x); SC = d; }
 	auto fixture = [&]() {
